@@ -50,6 +50,7 @@ func (c *BindingManager) AddBinding(remoteDevice api.DeviceRemoteInterface, data
 	if len(bindings) > 0 {
 		return errors.New("the server feature already has a binding")
 	}
+	verifYield("AddBinding.checked")
 
 	clientFeature := remoteDevice.FeatureByAddress(data.ClientAddress)
 	if clientFeature == nil {
